@@ -169,6 +169,13 @@ def run(ctx, eng):
            '`streams` and remembered in `_closed_streams`', node=f4.node)
     check_backlog(ctx, eng)
     check_header_list_cap(ctx, eng)
+    cm.include(ctx, eng, 'C11',
+               lambda o: o.rule == 'COH.apply-map' and o.desc.startswith(
+                   'local MAX_HEADER_LIST_SIZE ') or
+               (o.rule == 'FLOW.ack-source' and
+                o.where.endswith('_local_settings_acked')),
+               'the acknowledged MAX_HEADER_LIST_SIZE reaches the decoder '
+               'whatever else the same frame changed')
     ctx.assume('actual memory is not measured; reserved (pushed) streams '
                'are not counted by any limit (outside the listed '
                'mechanisms)')
